@@ -81,9 +81,10 @@ PROPS = {
     },
     "C03": {
         "module": "HctlProofs.Props.C03",
-        "extra_modules": ["HctlProofs.Lemmas.EntryPoints"],
+        "extra_modules": ["HctlProofs.Lemmas.EntryPoints", "HctlProofs.Lemmas.CliCounts"],
         "theorems": ["Hctl.C03.eval_subset_unit", "Hctl.C03.result_colours_valid", "Hctl.C03.counts_le",
-                     "Hctl.C03.closed_indep_spare", "Hctl.formulaeDirty_correct", "Hctl.extendedDirty_correct"],
+                     "Hctl.C03.closed_indep_spare", "Hctl.formulaeDirty_correct", "Hctl.extendedDirty_correct",
+                     "Hctl.C17.reported_counts_le"],
         "ks": ["k7"],
         "spec_tied": ["k7:eval "],
         "full": True,
@@ -236,8 +237,11 @@ PROPS = {
     },
     "C16": {
         "module": "HctlProofs.Props.C16",
+        "extra_modules": ["HctlProofs.Lemmas.ArchiveCtx"],
         "theorems": ["Hctl.C16.bundle_roundtrip", "Hctl.C16.bdd_entry_reloads", "Hctl.C16.nonbdd_ignored",
-                     "Hctl.C16.empty_label_not_reloaded", "Hctl.C16.lines_unlines", "Hctl.C16.formulae_lines"],
+                     "Hctl.C16.empty_label_not_reloaded", "Hctl.C16.lines_unlines", "Hctl.C16.formulae_lines",
+                     "Hctl.C16.entries_length", "Hctl.C16.reloaded_context_same_effect",
+                     "Hctl.C16.reloaded_context_same_effect_tool"],
         "ks": ["k8"],
         "spec_tied": ["k8"],
         "full": False,
@@ -252,10 +256,10 @@ PROPS = {
     },
     "C17": {
         "module": "HctlProofs.Props.C17",
-        "extra_modules": ["HctlProofs.Lemmas.CliModel"],
+        "extra_modules": ["HctlProofs.Lemmas.CliModel", "HctlProofs.Lemmas.CliCounts"],
         "theorems": ["Hctl.C17.mem_loadFormulae", "Hctl.C17.loadFormulae_order", "Hctl.C17.loadFormulae_idem", "Hctl.C17.trim_trim",
                      "Hctl.C17.analyse_eq_api_ext", "Hctl.C17.analyse_eq_api_plain", "Hctl.C17.analyse_correct",
-                     "Hctl.C17.parseAll_of_prep", "Hctl.C17.mem_listed", "Hctl.C17.counts_mono"],
+                     "Hctl.C17.parseAll_of_prep", "Hctl.C17.mem_listed", "Hctl.C17.counts_mono", "Hctl.C17.reported_counts_le"],
         "ks": ["k9"],
         "spec_tied": ["k9"],
         "bins": True,
@@ -318,7 +322,8 @@ PROPS = {
     },
     "C04": {
         "module": "HctlProofs.Props.C04",
-        "theorems": ["Hctl.C04.cache_transparent", "Hctl.C04.cached_eq_pure", "Hctl.C04.batch_sound", "Hctl.C04.batch_results_agree",
+        "extra_modules": ["HctlProofs.Lemmas.ListIndep"],
+        "theorems": ["Hctl.C04.formulae_position_independent", "Hctl.C04.extended_position_independent", "Hctl.C04.cache_transparent", "Hctl.C04.cached_eq_pure", "Hctl.C04.batch_sound", "Hctl.C04.batch_results_agree",
                      "Hctl.C04.init_cacheOK_plain", "Hctl.C04.init_cacheOK_noSharing", "Hctl.evalNode_sound",
                      "Hctl.lookup_spec", "Hctl.store_ok", "Hctl.C04.init_cacheOK_ext", "Hctl.C04.extended_batch_sound",
                      "Hctl.keySem_holds", "Hctl.keyWild_holds", "Hctl.single_name_transfer", "Hctl.dups_le_one",
